@@ -54,6 +54,10 @@ Fixpoint all2 {X Y} (p : X -> Y -> bool) (a : list X) (b : list Y) : bool :=
 Definition vec_close tol s : fvec -> fvec -> bool := all2 (close tol s).
 Definition mat_close tol s : fmat -> fmat -> bool := all2 (vec_close tol s).
 
+(* scale of a tensor for RELATIVE comparisons: its largest modulus (1 for an all-zero tensor) - no floor at 1, so that
+   operators of scale 1e-4 are held to the same relative accuracy as operators of scale 1 *)
+Definition nz (s : float) : float := if PrimFloat.ltb 0 s then s else 1.
+
 Definition vmaxabs (v : fvec) : float := fold_right (fun x acc => fmaxf (abs x) acc) 0 v.
 Definition mmaxabs (X : fmat) : float := fold_right (fun r acc => fmaxf (vmaxabs r) acc) 0 X.
 
@@ -67,13 +71,13 @@ Definition fsort (l : fvec) : fvec := fold_right insert [] l.
 
 (* ------------------------------------------------------------------ oracle tables *)
 Definition lookup {X} (tol : float) (tbl : list (fmat * X)) (dflt : X) (A : fmat) : X :=
-  match find (fun kv => mat_close tol (fmaxf 1 (mmaxabs A)) (fst kv) A) tbl with
+  match find (fun kv => mat_close tol (nz (mmaxabs A)) (fst kv) A) tbl with
   | Some kv => snd kv
   | None => dflt
   end.
 (* tables keyed additionally by the iteration budget *)
 Definition lookup_k {X} (tol : float) (tbl : list (fmat * nat * X)) (dflt : X) (A : fmat) (k : nat) : X :=
-  match find (fun kv => Nat.eqb (snd (fst kv)) k && mat_close tol (fmaxf 1 (mmaxabs A)) (fst (fst kv)) A) tbl with
+  match find (fun kv => Nat.eqb (snd (fst kv)) k && mat_close tol (nz (mmaxabs A)) (fst (fst kv)) A) tbl with
   | Some kv => snd kv
   | None => dflt
   end.
@@ -148,7 +152,7 @@ Definition kind_code (k : errkind) : nat :=
 
 (* the property predicate on the observed output of query q for the operator with dense matrix A (n x n) *)
 Definition predicate (tol : float) (n : nat) (A : fmat) (q : query) (mats : list (fmat * nat)) (vecs : list fvec) : bool :=
-  let sA := fmaxf 1 (mmaxabs A) in
+  let sA := nz (mmaxabs A) in
   let I := meye ArFloat n in
   match q, mats, vecs with
   | QCholesky upper, [(L, _)], [] =>
@@ -158,7 +162,7 @@ Definition predicate (tol : float) (n : nat) (A : fmat) (q : query) (mats : list
   | QRoot _, [(R, k)], [] => shape_is n k R && mat_close tol sA (gram n k R) A
   | QRootInv _, [(R, k)], [] =>
       let G := gram n k R in
-      shape_is n k R && mat_close (tol * fmaxf 1 (mmaxabs G) * sA) 1 (mmulF n n n G A) I
+      shape_is n k R && mat_close (tol * fmaxf 1 (mmaxabs G * sA)) 1 (mmulF n n n G A) I
   | QEigvalsh, [], [w] => Nat.eqb (length w) n
   | QEigh, [(Q, k)], [w] | QDiag _, [(Q, k)], [w] =>
       shape_is n k Q && Nat.eqb (length w) k &&
@@ -195,8 +199,8 @@ Definition check (c : case) : nat :=
       else if negb (ev_ok c evs) then 2
       else if negb (Nat.eqb (length (o_mats out)) (length (k_mats c)) && Nat.eqb (length (o_vecs out)) (length (k_vecs c))) then 3
       else if negb (all2 (fun x y => Nat.eqb (snd x) (snd y) && shape_is (a_n a) (snd y) (fst y)) (o_mats out) (k_mats c)) then 3
-      else if k_values c && negb (all2 (fun x y => mat_close (k_tol c) (fmaxf 1%float (mmaxabs (fst x))) (fst x) (fst y)) (o_mats out) (k_mats c)) then 4
-      else if k_values c && negb (all2 (fun x y => vec_close (k_tol c) (fmaxf 1%float (vmaxabs x)) (fsort x) (fsort y)) (o_vecs out) (k_vecs c)) then 5
+      else if k_values c && negb (all2 (fun x y => mat_close (k_tol c) (nz (mmaxabs (fst x))) (fst x) (fst y)) (o_mats out) (k_mats c)) then 4
+      else if k_values c && negb (all2 (fun x y => vec_close (k_tol c) (nz (vmaxabs x)) (fsort x) (fsort y)) (o_vecs out) (k_vecs c)) then 5
       else if k_pred c && negb (predicate (k_ptol c) (a_n a) (a_dense a) (k_query c) (k_mats c) (k_vecs c)) then 6
       else 0
   end.
